@@ -191,10 +191,22 @@ fn escape_literal_backslashes(s: &str) -> String {
     result
 }
 
+/// Checks whether `s` consists of exactly one escaped character
+/// such as `\\.`, `\\d` or `\\u{1f4a9}`.
+fn is_single_escaped_char(s: &str) -> bool {
+    match s.strip_prefix('\\') {
+        Some(rest) => match rest.strip_prefix("u{") {
+            Some(hex) => hex.ends_with('}') && !hex.contains('\\'),
+            None => rest.chars().count() == 1,
+        },
+        None => false,
+    }
+}
+
 impl Display for Grapheme {
     fn fmt(&self, f: &mut Formatter<'_>) -> Result {
         let is_single_char = self.char_count(false) == 1
-            || (self.chars.len() == 1 && self.chars[0].matches('\\').count() == 1);
+            || (self.chars.len() == 1 && is_single_escaped_char(&self.chars[0]));
         let is_range = self.min < self.max;
         let is_repetition = self.min > 1;
         let mut value = if self.repetitions.is_empty() {
